@@ -73,13 +73,54 @@ class Lock:
 
 # ---------------------------------------------------------------- translator
 
-def regen_tables():
+def generated_deps(prop):
+    """Names of the Generated/*.lean tables the Lean modules of `prop` (property theorems and the
+    driver arm the harness talks to) import, transitively."""
+    import re as _re
+    idx = json.load(open(os.path.join(LEAN, "props_index.json"))).get(prop, {})
+    todo = list(idx.get("modules", [])) + ["BindgenModel.Driver.%s" % prop]
+    seen, gen = set(), set()
+    while todo:
+        m = todo.pop()
+        if m in seen:
+            continue
+        seen.add(m)
+        path = os.path.join(LEAN, *m.split(".")) + ".lean"
+        if not os.path.exists(path):
+            continue
+        for imp in _re.findall(r"^import\s+(BindgenModel\.[\w.]+)", open(path).read(), _re.M):
+            if imp.startswith("BindgenModel.Generated."):
+                gen.add(imp.split(".")[-1])
+            todo.append(imp)
+    return gen
+
+
+def regen_tables(prop=None):
     """Regenerate lean/BindgenModel/Generated/*.lean from /repo's working tree.
-    Returns (ok, log). A failed extraction is reported like a broken correspondence."""
+    Returns (ok, log). A failed extraction is reported like a broken correspondence.  With `prop`,
+    only the tables that property's Lean modules import decide `ok` (an anchor that vanished in a
+    table of another property is that property's broken tie, not this one's)."""
     sys.path.insert(0, os.path.join(VERIF, "translator"))
     import translate  # noqa
     with Lock("lake"):
-        return translate.run(REPO, os.path.join(LEAN, "BindgenModel", "Generated"))
+        ok, log = translate.run(REPO, os.path.join(LEAN, "BindgenModel", "Generated"))
+    if prop is None or ok:
+        return ok, log
+    own = generated_deps(prop) | set(EXTRA_TABLES.get(prop, ()))
+    if not own:
+        return ok, log
+    lines = log.splitlines()
+    failed = [l for l in lines if "EXTRACTION FAILED" in l]
+    mine = [l for l in failed if l.split(":", 1)[0] in own]
+    others = [l.split(":", 1)[0] for l in failed if l.split(":", 1)[0] not in own]
+    kept = [l for l in lines if l.split(":", 1)[0] in own]
+    if others:
+        kept.append("(extraction failures in tables this property does not use: %s)" % ", ".join(others))
+    return (not mine), "\n".join(kept)
+
+
+# tables a check reads through python (not through a Lean import)
+EXTRA_TABLES = {"C11": ("Sites",), "C12": ("Sites", "Entry", "PanicSites")}
 
 
 # ---------------------------------------------------------------- lean
